@@ -63,8 +63,20 @@ def gen(rng, tier):
             case['nrows'] = rng.randint(0, nr + 2)
         elif kind == 'limits':
             lim = _composition(rng, nr)
-            if rng.random() < 0.15:
+            r_ = rng.random()
+            if r_ < 0.15:
                 lim[-1] += rng.choice([1, -1, 2]) if lim[-1] > 1 else 1
+            elif r_ < 0.27 and nr >= 3:
+                # inconsistent limits that look like something else: the CUMULATIVE end indices of a composition
+                # (strictly increasing, last entry = number of rows), or the lengths in another order plus the total
+                comp = _composition(rng, nr)
+                while len(comp) < 2:
+                    comp = _composition(rng, nr)
+                cum, acc = [], 0
+                for c in comp:
+                    acc += c
+                    cum.append(acc)
+                lim = cum if rng.random() < 0.7 else comp + [nr]
             case['limits'] = lim
         elif kind == 'micro':
             wide = rng.random() < 0.4
